@@ -39,7 +39,7 @@ def run_actions(policy, acts, loss_kinds):
                 await asyncio.sleep(0)
             taken.append(x)
             yield x
-    counts = {'close': 0, 'timeout': 0, 'expected_close': 0, 'ticks_alive': 0}
+    counts = {'close': 0, 'timeout': 0, 'expected_close': 0, 'ticks_alive': 0, 'expected_conn': 0}
 
     class H(BaseRequestHandler):
         async def on_close(self, rsocket, exception=None):
@@ -126,17 +126,21 @@ def run_actions(policy, acts, loss_kinds):
             elif a[0] == 'loss':
                 if receiver_running():
                     counts['expected_close'] += 1
+                    if policy['on_close']:
+                        counts['expected_conn'] += 1
                     k = loss_kinds[loss_i[0] % len(loss_kinds)]
                     loss_i[0] += 1
                     if k == 'eof':
                         taken[-1].inject_eof()
                     else:
+                        taken[-1].close_raises = True      # a reset connection: close() raises too, as TransportTCP's does
                         taken[-1].inject_error()
                     loop.settle()
             elif a[0] == 'katimeout':
                 if receiver_running() and c.is_server_alive():
                     if policy['on_timeout']:
                         counts['expected_close'] += 1
+                        counts['expected_conn'] += 1
                     auto_ack[0] = False
                     before = counts['timeout']
                     for _ in range(40):
@@ -147,6 +151,7 @@ def run_actions(policy, acts, loss_kinds):
                     scan_acks()
                     loop.settle()
             elif a[0] == 'reconnect':
+                counts['expected_conn'] += 1
                 if receiver_running():
                     counts['expected_close'] += 1
                 loop.run(lambda: asyncio.create_task(c.reconnect()))
@@ -193,7 +198,8 @@ def run_actions(policy, acts, loss_kinds):
                'closed': [i for i, t in enumerate(taken) for _ in range(t.closed)], 'failed': failed,
                'on_close': counts['close'], 'timeouts': counts['timeout'], 'probes': probes_count[0],
                'stale_pending': [(ti, sid) for ti, sid, f in futures if not f.done() and ti != cur()],
-               'expected_on_close': counts['expected_close'], 'ticks_alive': counts['ticks_alive']}
+               'expected_on_close': counts['expected_close'], 'ticks_alive': counts['ticks_alive'],
+               'expected_conn': 1 + counts['expected_conn']}
         return obs
     finally:
         loop.finish()
@@ -220,6 +226,8 @@ def oracle(policy, acts, o):
             return 'connection %d: stream ids do not restart from 1: %s' % (i, ids)
         if any(isinstance(x, str) and x.startswith('other') for x in w):
             return 'connection %d: unexpected frames %s' % (i, w)
+    if o['conn'] != o['expected_conn']:
+        return 'the client is on transport number %d, but %d connections should have been made' % (o['conn'], o['expected_conn'])
     if o['connected'] and o['alive'] and (not o['wire'] or o['wire'][0] != 'setup'):
         return 'the connection in use (transport %d) has no SETUP on it: %s' % (o['conn'] - 1, o['wire'])
     if o['connected'] and o['alive']:
@@ -238,6 +246,53 @@ def oracle(policy, acts, o):
         if o['closed'].count(i) != 1:
             return 'old transport %d closed %d times' % (i, o['closed'].count(i))
     return None
+
+
+def reconnect_with_request_while_connecting(suspends, cause):
+    """oracle-only scenario (below the model's settled-step granularity): the next transport's connect() suspends and a
+    request is issued meanwhile; returns what was written on the second transport"""
+    from rsocket.rsocket_client import RSocketClient
+    from rsocket.request_handler import BaseRequestHandler
+    from rsocket.payload import Payload
+    loop = sim.new_loop()
+    sim.patch_clock(loop)
+    T = sim.make_transport_class()
+    ts = [T(lenreq=True, name='a'), T(lenreq=True, connect_suspends=suspends, name='b')]
+
+    async def provider():
+        for x in ts:
+            yield x
+
+    class H(BaseRequestHandler):
+        async def on_close(self, rsocket, exception=None):
+            await rsocket.reconnect()
+    box = {}
+    try:
+        def mk():
+            box['c'] = RSocketClient(provider(), handler_factory=H, keep_alive_period=timedelta(seconds=1000),
+                                     max_lifetime_period=timedelta(seconds=5000))
+            asyncio.create_task(box['c'].connect())
+        loop.run(mk)
+        loop.settle()
+        c = box['c']
+        if cause == 'eof':
+            ts[0].inject_eof()
+        else:
+            loop.run(lambda: asyncio.create_task(c.reconnect()))
+        issued = 0
+        for _ in range(30):
+            loop.tick()
+            if not ts[1].connected and hasattr(c, '_send_queue') and c._next_transport is not None \
+                    and not c._next_transport.done() and issued < 2:
+                try:
+                    loop.run(lambda: c.fire_and_forget(Payload(b'during-connect')))
+                    issued += 1
+                except Exception:
+                    pass
+        loop.settle()
+        return issued, [sim.parse_sent(b)['t'] for b in ts[1].sent]
+    finally:
+        loop.finish()
 
 
 def _acts(rng):
@@ -301,6 +356,15 @@ def correspond(ctx, corr, model_ok):
         items.append((_coq(policy, acts, o), {'policy': policy, 'acts': acts, 'loss_kinds': loss_kinds, 'impl': o}))
         if len(corr.samples) < 3 and o['conn'] >= 3 and o['failed']:
             corr.samples.append({'policy': policy, 'actions': [a[0] for a in acts], 'observed': o})
+    for suspends in (1, 2, 4):
+        for cause in ('eof', 'explicit'):
+            issued, w = reconnect_with_request_while_connecting(suspends, cause)
+            corr.evaluations += 1
+            corr.count('request-while-connecting:issued=%d' % issued)
+            if w and w[0] != 'Setup':
+                corr.oracle_failures.append({'what': 'first frame on the new transport is %s, not SETUP (request issued while '
+                                                     'connecting): %s' % (w[0], w), 'scenario': 'while-connecting',
+                                             'suspends': suspends, 'cause': cause, 'policy': {}, 'acts': [], 'loss_kinds': []})
     corr.rule = ('random sequences of 2..14 actions (request-response, server response, connection loss by EOF or read error, '
                  'provoked keepalive timeout, explicit reconnect on a healthy or dead connection, keepalive period) under four handler '
                  'policies (on_close / on_keepalive_timeout call reconnect or not); 1..6 consecutive reconnects; non-trivial = at least '
@@ -324,6 +388,12 @@ def search(ctx, budget_s):
 
 def replay(obj):
     case = obj['case']
+    if case.get('scenario') == 'while-connecting':
+        issued, w = reconnect_with_request_while_connecting(case['suspends'], case['cause'])
+        bad = bool(w) and w[0] != 'Setup'
+        if bad:
+            print('oracle: first frame on the new transport is', w[0])
+        return bad
     acts = [tuple(a) for a in case['acts']]
     o = run_case(case['policy'], acts, case['loss_kinds'])
     orc = oracle(case['policy'], acts, o)
